@@ -167,7 +167,7 @@ def strings_for(rng, alphabet='abcdef', short='abc', maxshort=3, nrandom=30, max
 def hostile_spec(rng):
     spec = gen_spec(rng, set("assoc,ret,cons,pre,delete,insert,attach,rtl,copy,lookup,noassoc,multi,mixed".split(',')))
     ncls = len(spec['classes'])
-    kind = rng.randrange(8)
+    kind = rng.randrange(10)
     # re-association (ASSOC / PUT_COPY) inside positioning passes only in a minority of fonts: the engine computes
     # character coverage before those passes (known finding), and the other fonts must keep that clause judged
     pa_ok = rng.random() < 0.2
@@ -283,6 +283,38 @@ def hostile_spec(rng):
             cp['rules'].append({'pre': 0, 'pat': [-1, -1], 'acts': [[('put_copy', 1)], [('delete',)] if rng.random() < 0.5 else [('put_copy', -1)]], 'cons': [None, None], 'ret': 0})
         spec['passes'].insert(0, cp)
         spec['passes'].insert(0, att)
+    if kind == 9:
+        # rule flood: far more rules than the matcher's candidate list holds (128 per state, 256 slots in two halves) match at one position,
+        # spread over success states of different depth so that the lists are merged along one path
+        n = rng.choice([100, 129, 140, 201, 255])
+        lens = [rng.choice([1, 2, 3]) for _ in range(n)] if rng.random() < 0.5 else [1] + [2] * (n // 2) + [3] * (n - 1 - n // 2)
+        anyc = -1 if rng.random() < 0.7 else rng.randrange(ncls)
+        revsort = rng.random() < 0.5
+        flood = []
+        for j, L in enumerate(lens):
+            acts = [[] for _ in range(L)]
+            if j % 37 == 5:
+                acts[0] = [('attr', 'AdvX', ('const', 100 + j))]
+            flood.append({'pre': 0, 'pat': [anyc] * L, 'acts': acts, 'cons': [None] * L, 'ret': 0})
+            if revsort:
+                # sort keys need not follow the pattern length: deeper states then merge *behind* the earlier ones.  (The sort key is also the
+                # rule length the code loader checks NEXTs against, so these rules carry a bare RET_ZERO.)
+                flood[-1]['sortkey'] = 5 - L
+                flood[-1]['raw_acts'] = [49]
+        where = 0 if rng.random() < 0.5 else len(spec['passes'])
+        spec['passes'].insert(where, {'type': spec['passes'][0]['type'] if where == 0 else 'pos', 'pre': 0, 'maxloop': rng.choice([1, 3]), 'rules': flood})
+    if kind == 8 and spec['passes'][0]['type'] in ('sub', 'lb'):
+        # raw action: DELETE immediately followed by INSERT in one item (no NEXT in between) - the cursor is a deleted slot when the new slot
+        # is linked in; no compiler emits this, the loader accepts it.  The replacement glyph is outside the matched class where possible.
+        from .gdl import OP as _OP
+        c = rng.randrange(ncls)
+        outs = [c2 for c2 in range(ncls) if spec['classes'][c2][0] not in spec['classes'][c]] or [c]
+        c2 = rng.choice(outs)
+        raw = [_OP['DELETE'], _OP['INSERT'], _OP['PUT_GLYPH'], c2 >> 8, c2 & 255, _OP['NEXT'], _OP['RET_ZERO']]
+        if rng.random() < 0.4:
+            raw = [_OP['INSERT'], _OP['PUT_GLYPH'], c2 >> 8, c2 & 255, _OP['DELETE'], _OP['NEXT'], _OP['RET_ZERO']]      # ... and the other order
+        spec['passes'][0]['rules'].insert(0, {'pre': 0, 'pat': [c], 'acts': [[]], 'cons': [None], 'ret': 0, 'raw_acts': raw})
+        spec['passes'][0]['maxloop'] = rng.choice([1, 3, 20])
     if kind == 4 and spec['passes'][0]['type'] in ('sub', 'lb'):
         # delete everything / delete first or last
         spec['passes'][0]['rules'].insert(0, {'pre': 0, 'pat': [-1], 'acts': [[('delete',)]], 'cons': [None if rng.random() < 0.5 else ('lt', ('gattr', 0, 4), ('const', 2))], 'ret': 0})
@@ -393,6 +425,10 @@ def cmap_spec(rng):
         cp += ln + rng.choice([1, 1, 2, 17, 300])
         if cp >= 0xFFF0:
             break
+    if rng.random() < 0.25:
+        # the first segment starts at U+0000 (fonts that map the C0 controls): the cache-filling walk must not lose U+0001
+        for c in range(0, rng.choice([1, 2, 3, 0x20])):
+            m[c] = 1 + c % (ng - 1)
     if rng.random() < 0.5:
         m[0xFFFF] = rng.randrange(1, ng)
     if rng.random() < 0.3:
